@@ -749,13 +749,21 @@ impl World {
                 args,
             )
         } else {
-            Ix::new(
+            let mut ix = Ix::new(
                 "two_hop_swap",
                 "TwoHopSwap",
                 wa::TwoHopSwap { token_program: spl_token::ID, token_authority: self.users[user], whirlpool_one: p1.key, whirlpool_two: p2.key, token_owner_account_one_a: self.utok(user, &p1.mint_a), token_vault_one_a: p1.vault_a, token_owner_account_one_b: self.utok(user, &p1.mint_b), token_vault_one_b: p1.vault_b, token_owner_account_two_a: self.utok(user, &p2.mint_a), token_vault_two_a: p2.vault_a, token_owner_account_two_b: self.utok(user, &p2.mint_b), token_vault_two_b: p2.vault_b, tick_array_one_0: t1[0], tick_array_one_1: t1[1], tick_array_one_2: t1[2], tick_array_two_0: t2[0], tick_array_two_1: t2[1], tick_array_two_2: t2[2], oracle_one: p1.oracle, oracle_two: p2.oracle }.to_account_metas(None),
                 wi::TwoHopSwap { amount, other_amount_threshold: threshold, amount_specified_is_input: exact_in, a_to_b_one: a_to_b_1, a_to_b_two: a_to_b_2, sqrt_price_limit_one: limit1, sqrt_price_limit_two: limit2 }.data(),
                 args,
-            )
+            );
+            // pools with adaptive fee need their oracle writable (v1 declares both read-only)
+            for (slot, adaptive) in [("oracle_one", p1.adaptive), ("oracle_two", p2.adaptive)] {
+                if adaptive {
+                    let i = ix.slot_index(slot);
+                    ix.metas[i].is_writable = true;
+                }
+            }
+            ix
         }
     }
 
